@@ -1,5 +1,253 @@
+(* C12 — proofs about the model in C12/Model.v. *)
 From Coq Require Import List ZArith Bool Lia.
 Import ListNotations.
 From V Require Import Base.U32 Base.Bytes Base.Iface Gen.C12Consts C12.Model.
 Local Open Scope Z_scope.
-Lemma placeholder_thm : run [] = []. Proof. reflexivity. Qed.
+
+(* ------------------------------------------------------------------------------------------------ *)
+(* Tie to the source: who calls the choke-point functions, which handlers the dispatcher reaches.     *)
+(* The lists on the right are what the model implements; the generated lists come from the LLVM IR of *)
+(* the working tree.  A new caller makes `code_shape_holds` fail to type-check.                       *)
+Definition expected_callsites : list (list Z) :=
+  [ (* supla_esp_cfgmode_start *)
+    [FN_supla_esp_cfgmode_start; FN_supla_esp_cfgmode_start_with_timeout];
+    [FN_supla_esp_cfgmode_start; FN_supla_esp_input_start_cfg_mode];
+    [FN_supla_esp_cfgmode_start; FN_user_init];
+    (* supla_esp_cfgmode_start_with_timeout *)
+    [FN_supla_esp_cfgmode_start_with_timeout; FN_supla_esp_calcfg_request];
+    (* supla_esp_input_start_cfg_mode *)
+    [FN_supla_esp_input_start_cfg_mode; FN_supla_esp_input_legacy_state_change_handling];
+    [FN_supla_esp_input_start_cfg_mode; FN_supla_esp_input_legacy_timer_cb];
+    [FN_supla_esp_input_start_cfg_mode; FN_supla_esp_input_advanced_state_change_handling];
+    [FN_supla_esp_input_start_cfg_mode; FN_supla_esp_input_advanced_timer_cb];
+    (* factory_defaults *)
+    [FN_factory_defaults; FN_supla_esp_input_legacy_timer_cb];
+    [FN_factory_defaults; FN_supla_esp_cfg_init];
+    (* supla_esp_gpio_rs_start_autoCal: only the shutter engine (environment event RsEnv) *)
+    [FN_supla_esp_gpio_rs_start_autoCal; FN_supla_esp_gpio_rs_task_processing];
+    (* supla_esp_gpio_rs_apply_new_times *)
+    [FN_supla_esp_gpio_rs_apply_new_times; FN_supla_esp_calcfg_request];
+    [FN_supla_esp_gpio_rs_apply_new_times; FN_supla_esp_channel_set_value];
+    [FN_supla_esp_gpio_rs_apply_new_times; FN_supla_esp_gpio_rs_apply_new_config];   (* reachable only with RETREIVE_CHANNEL_CONFIG *)
+    [FN_supla_esp_gpio_rs_apply_new_times; FN_supla_esp_gpio_fb_apply_new_config];
+    (* supla_esp_gpio_rs_apply_new__times *)
+    [FN_supla_esp_gpio_rs_apply_new__times; FN_supla_esp_gpio_rs_apply_new_times];
+    [FN_supla_esp_gpio_rs_apply_new__times; FN_supla_esp_recv_callback];             (* HTTP form of the config page (C14) *)
+    (* cfgmode_vars (entertime lives there) *)
+    [FN_cfgmode_vars; FN_supla_esp_cfgmode_start];
+    [FN_cfgmode_vars; FN_supla_esp_cfgmode_start_with_timeout];
+    [FN_cfgmode_vars; FN_supla_esp_cfgmode_enter_ap_mode];
+    [FN_cfgmode_vars; FN_supla_esp_connectcb];
+    [FN_cfgmode_vars; FN_supla_esp_cfgmode_started];
+    [FN_cfgmode_vars; FN_supla_esp_cfgmode_entertime];
+    [FN_cfgmode_vars; FN_supla_esp_cfgmode_clear_vars] ].
+Definition expected_dispatch : list (list Z) :=
+  [ [FN_supla_esp_calcfg_request]; [FN_supla_esp_channel_set_value]; [FN_srpc_getdata]; [FN_srpc_rd_free]; [FN_uptime_sec];
+    [FN_supla_log]; [FN_supla_esp_on_version_error]; [FN_supla_esp_on_register_result]; [FN_supla_esp_channelgroup_set_value];
+    [FN_supla_esp_channel_set_activity_timeout_result]; [FN_supla_esp_update_url_result]; [FN_supla_esp_get_channel__state] ].
+Definition code_shape : Prop := CALLSITES = expected_callsites /\ DISPATCH = expected_dispatch.
+Lemma code_shape_holds : code_shape.
+Proof. split; reflexivity. Qed.
+
+(* numeric facts about the generated constants, each re-proved by computation *)
+Record consts_facts := {
+  cf_calls : CALL_CALCFG_REQUEST <> CALL_REGISTER_RESULT /\ CALL_CALCFG_REQUEST <> CALL_SET_VALUE /\ CALL_CALCFG_REQUEST <> CALL_GROUP_SET_VALUE /\
+             CALL_SET_VALUE <> CALL_REGISTER_RESULT /\ CALL_GROUP_SET_VALUE <> CALL_REGISTER_RESULT /\ CALL_GROUP_SET_VALUE <> CALL_SET_VALUE;
+  cf_cmds : CMD_ENTER_CFG_MODE <> CMD_RECALIBRATE;
+  cf_press : 0 < PRESS_TIME_MS * 1000 < 4294967296;
+  cf_count : 1 < PRESS_COUNT <= 127;
+  cf_states : STATE_ACTIVE <> STATE_INACTIVE;
+  cf_res : RES_UNAUTHORIZED <> RES_DONE /\ RES_UNAUTHORIZED <> RES_NOT_SUPPORTED }.
+Lemma consts_ok : consts_facts.
+Proof. constructor; vm_compute; repeat split; congruence. Qed.
+
+(* ------------------------------------------------------------------------------------------------ *)
+(* list helpers *)
+Lemma updn_length {A} (l : list A) n x : length (updn l n x) = length l.
+Proof. revert n; induction l; intros [|n]; simpl; auto. Qed.
+Lemma nth_updn_same {A} (l : list A) n x : (n < length l)%nat -> nth_error (updn l n x) n = Some x.
+Proof. revert n; induction l; intros [|n] H; simpl in *; try lia; auto. apply IHl; lia. Qed.
+Lemma nth_updn_other {A} (l : list A) n m x : n <> m -> nth_error (updn l n x) m = nth_error l m.
+Proof. revert n m; induction l; intros [|n] [|m] H; simpl; auto; try congruence. Qed.
+Lemma nth_updn_none {A} (l : list A) n x : (length l <= n)%nat -> updn l n x = l.
+Proof. revert n; induction l; intros [|n] H; simpl in *; auto; try lia. f_equal; apply IHl; lia. Qed.
+
+Lemma getn_setn_same {A} (l : list A) i x y : getn l i = Some y -> getn (setn l i x) i = Some x.
+Proof.
+  unfold getn, setn; destruct (i <? 0) eqn:E; [discriminate|]. intros H.
+  apply nth_updn_same. apply nth_error_Some. congruence.
+Qed.
+Lemma getn_setn_other {A} (l : list A) i j x : i <> j -> getn (setn l i x) j = getn l j.
+Proof.
+  unfold getn, setn; intros H. destruct (j <? 0) eqn:Ej; auto. destruct (i <? 0) eqn:Ei; auto.
+  apply nth_updn_other. apply Z.ltb_ge in Ej, Ei. intros C. apply H. apply Z2Nat.inj; lia.
+Qed.
+Lemma getn_setn_none {A} (l : list A) i x : getn l i = None -> setn l i x = l.
+Proof.
+  unfold getn, setn; destruct (i <? 0); auto. intros H. apply nth_updn_none. apply nth_error_None; auto.
+Qed.
+
+Lemma s8_range z : -128 <= s8 z <= 127.
+Proof.
+  unfold s8. pose proof (Z.mod_pos_bound z 256 ltac:(lia)). destruct (z mod 256 <? 128) eqn:E.
+  - apply Z.ltb_lt in E; lia. - apply Z.ltb_ge in E; lia.
+Qed.
+Lemma s8_le z : -128 <= z -> s8 z <= z.
+Proof.
+  intros H. unfold s8. pose proof (Z.mod_pos_bound z 256 ltac:(lia)).
+  assert (z mod 256 <= z \/ z < 0).
+  { destruct (Z_lt_le_dec z 0); [right; lia|left]. apply Z.mod_le; lia. }
+  destruct (z mod 256 <? 128) eqn:E.
+  - apply Z.ltb_lt in E. destruct H1; [lia|].
+    (* z in [-128, 0): z mod 256 = z + 256 >= 128, contradiction *)
+    assert (z mod 256 = z + 256). { symmetry. apply Z.mod_unique with (q := -1); lia. } lia.
+  - apply Z.ltb_ge in E. destruct H1; [lia|].
+    assert (z mod 256 = z + 256). { symmetry. apply Z.mod_unique with (q := -1); lia. } lia.
+Qed.
+
+(* ------------------------------------------------------------------------------------------------ *)
+(* single-step facts about server messages *)
+Lemma with_rss_id s : with_rss s (rss s) = s.
+Proof. destruct s; reflexivity. Qed.
+Lemma pre_iter_id s : registered s <> 0 -> pre_iter s = s.
+Proof. intros H. unfold pre_iter. apply Z.eqb_neq in H. rewrite H, andb_false_r. reflexivity. Qed.
+
+Lemma calib_set_rflags r f : calib (set_rflags r f) = calib r.
+Proof. reflexivity. Qed.
+Lemma calib_pre_iter s : calib_all (pre_iter s) = calib_all s.
+Proof.
+  unfold pre_iter. destruct (srpc_up s && (registered s =? 0)); [|reflexivity].
+  destruct (negb (band (blank s) 2)); [|reflexivity].
+  unfold calib_all; cbn [rss with_rss set_conn]. rewrite map_map. apply map_ext. intros r. destruct (r_ex r); reflexivity.
+Qed.
+Lemma pre_iter_fields s :
+  booted (pre_iter s) = booted s /\ halted (pre_iter s) = halted s /\ entertime (pre_iter s) = entertime s /\
+  inputs (pre_iter s) = inputs s /\ now (pre_iter s) = now s /\ boot32 (pre_iter s) = boot32 s /\ srpc_up (pre_iter s) = srpc_up s /\
+  silent (pre_iter s) = silent s /\ blank (pre_iter s) = blank s.
+Proof.
+  unfold pre_iter. destruct (srpc_up s && (registered s =? 0)) eqn:E; [|repeat split; reflexivity].
+  apply andb_true_iff in E. destruct E as [E _].
+  destruct (negb (band (blank s) 2)); cbn; rewrite ?E; repeat split; reflexivity.
+Qed.
+
+Definition rmatch (ch : Z) (r : shutter) : bool := r_ex r && (r_ch r =? ch) && band (r_flags r) CHFLAG_RECALIBRATE.
+
+Lemma recal_loop_unauth l ch wt ot ct :
+  exists m, recal_loop l ch 0 wt ot ct = (l, m, false, 0).
+Proof.
+  induction l as [|r l IH]; cbn [recal_loop]; [eexists; reflexivity|].
+  destruct IH as [m IH]. rewrite IH. fold (rmatch ch r). destruct (rmatch ch r); cbn [Z.eqb]; eexists; reflexivity.
+Qed.
+Lemma recal_loop_nomatch l ch auth wt ot ct :
+  existsb (rmatch ch) l = false -> exists m a n, recal_loop l ch auth wt ot ct = (l, m, a, n).
+Proof.
+  induction l as [|r l IH]; cbn [recal_loop existsb]; intros H; [do 3 eexists; reflexivity|].
+  apply orb_false_iff in H. destruct H as [H1 H2]. destruct (IH H2) as (m & a & n & E). rewrite E.
+  fold (rmatch ch r). rewrite H1. do 3 eexists; reflexivity.
+Qed.
+Lemma recal_result_unauth l ch acc :
+  (acc = RES_UNAUTHORIZED \/ acc = RES_NOT_SUPPORTED) ->
+  recal_result l ch 0 acc = (if existsb (rmatch ch) l then RES_UNAUTHORIZED else acc) \/
+  recal_result l ch 0 acc = RES_UNAUTHORIZED.
+Proof.
+  revert acc; induction l as [|r l IH]; intros acc Hacc; cbn [recal_result existsb]; [left; reflexivity|].
+  fold (rmatch ch r). destruct (rmatch ch r) eqn:E; cbn [Z.eqb orb].
+  - destruct (IH RES_UNAUTHORIZED (or_introl eq_refl)) as [H|H]; rewrite H; [destruct (existsb (rmatch ch) l)|]; auto.
+  - apply IH; auto.
+Qed.
+Lemma recal_result_nomatch l ch auth acc : existsb (rmatch ch) l = false -> recal_result l ch auth acc = acc.
+Proof.
+  revert acc; induction l as [|r l IH]; intros acc H; cbn [recal_result existsb] in *; auto.
+  apply orb_false_iff in H. destruct H as [H1 H2]. fold (rmatch ch r). rewrite H1. apply IH; auto.
+Qed.
+Lemma recal_result_match l ch acc : existsb (rmatch ch) l = true -> recal_result l ch 0 acc = RES_UNAUTHORIZED.
+Proof.
+  revert acc; induction l as [|r l IH]; intros acc H; cbn [recal_result existsb] in *; [discriminate|].
+  fold (rmatch ch r). destruct (rmatch ch r) eqn:E; cbn [Z.eqb].
+  - destruct (existsb (rmatch ch) l) eqn:E2; [apply IH; auto|apply recal_result_nomatch; auto].
+  - apply IH. rewrite orb_false_l in H; auto.
+Qed.
+
+Lemma cal_outs_same l : cal_outs l l = [].
+Proof.
+  unfold cal_outs. generalize (map Z.of_nat (seq 0 (length l))). induction l as [|r l IH]; intros [|k ks]; cbn; auto.
+  rewrite list_eqb_refl. cbn. apply IH.
+Qed.
+
+Definition live (s : st) : Prop := booted s = true /\ halted s = false.
+
+Lemma step_srv s call p : live s -> step s (Srv call p) = srv s call p.
+Proof. intros [B H]. unfold step. rewrite B, H. reflexivity. Qed.
+
+Section WithFacts.
+Variable CF : consts_facts.
+
+Lemma srv_is_calcfg s p :
+  srpc_up s = true -> registered s <> 0 ->
+  srv s CALL_CALCFG_REQUEST p =
+    if calcfg_gate p then
+      let '(s', o) := calcfg s p in
+      let fl := filter (fun x => match x with CfgFlash _ _ _ => true | _ => false end) o in
+      let rest := filter (fun x => match x with CfgFlash _ _ _ => false | _ => true end) o in
+      (s', rest ++ (if unauth_class p then [Inert (list_eqb (concat (calib_all s)) (concat (calib_all s')) &&
+                                                   (entertime s =? entertime s') && Bool.eqb (srpc_up s) (srpc_up s'))] else []) ++ fl)
+    else (s, if unauth_class p then [Inert true] else []).
+Proof.
+  intros Hup Hreg. unfold srv. rewrite (pre_iter_id s Hreg), Hup. cbn [negb].
+  destruct (cf_calls CF) as (H1 & H2 & H3 & _).
+  rewrite (proj2 (Z.eqb_neq _ _) H1), (proj2 (Z.eqb_neq _ _) H2), (proj2 (Z.eqb_neq _ _) H3), Z.eqb_refl. reflexivity.
+Qed.
+
+Lemma filter_send_result s a b c d :
+  filter (fun x => match x with CfgFlash _ _ _ => false | _ => true end) (send_result s a b c d) = send_result s a b c d /\
+  filter (fun x => match x with CfgFlash _ _ _ => true | _ => false end) (send_result s a b c d) = [].
+Proof. unfold send_result. destruct (is_registered s); split; reflexivity. Qed.
+
+Lemma inert_refl s : list_eqb (concat (calib_all s)) (concat (calib_all s)) && (entertime s =? entertime s) && Bool.eqb (srpc_up s) (srpc_up s) = true.
+Proof. rewrite list_eqb_refl, Z.eqb_refl, eqb_reflx. reflexivity. Qed.
+
+(* An enter-configuration request that is not marked authorised (flag <> 1) is answered UNAUTHORIZED (when the
+   device is registered, i.e. able to answer at all) and the whole device state is unchanged. *)
+Lemma unauthorised_enter_inert_thm : forall s p,
+  live s -> srpc_up s = true -> registered s <> 0 -> calcfg_gate p = true -> unauth_class p = true ->
+  s32 (le32 p REQ_OFF_COMMAND) = CMD_ENTER_CFG_MODE -> nthz p REQ_OFF_AUTH <> 1 ->
+  step s (Srv CALL_CALCFG_REQUEST p) =
+    (s, send_result s (s32 (le32 p REQ_OFF_SENDER)) (s32 (le32 p REQ_OFF_CHANNEL)) CMD_ENTER_CFG_MODE RES_UNAUTHORIZED ++ [Inert true]).
+Proof.
+  intros s p L Hup Hreg Hg Hu Hc Ha. rewrite (step_srv _ _ _ L), (srv_is_calcfg _ _ Hup Hreg), Hg, Hu.
+  unfold calcfg. rewrite Hc, Z.eqb_refl. apply Z.eqb_neq in Ha. rewrite Ha.
+  destruct (filter_send_result s (s32 (le32 p REQ_OFF_SENDER)) (s32 (le32 p REQ_OFF_CHANNEL)) CMD_ENTER_CFG_MODE RES_UNAUTHORIZED) as [F1 F2].
+  cbv zeta. rewrite F1, F2, inert_refl, app_nil_r. reflexivity.
+Qed.
+
+(* A recalibrate request with the authorisation flag clear changes nothing; it is answered UNAUTHORIZED when it
+   addresses a shutter channel that supports recalibration with a well-formed payload, NOT_SUPPORTED otherwise. *)
+Lemma unauthorised_recalibrate_inert_thm : forall s p,
+  live s -> srpc_up s = true -> registered s <> 0 -> calcfg_gate p = true -> unauth_class p = true ->
+  s32 (le32 p REQ_OFF_COMMAND) = CMD_RECALIBRATE -> nthz p REQ_OFF_AUTH = 0 ->
+  exists res,
+  step s (Srv CALL_CALCFG_REQUEST p) =
+    (s, send_result s (s32 (le32 p REQ_OFF_SENDER)) (s32 (le32 p REQ_OFF_CHANNEL)) CMD_RECALIBRATE res ++ [Inert true]) /\
+  (res = RES_UNAUTHORIZED \/ res = RES_NOT_SUPPORTED) /\
+  (let dtype := s32 (le32 p REQ_OFF_DATATYPE) in
+   ((dtype =? DATATYPE_RS_SETTINGS) && (le32 p REQ_OFF_DATASIZE =? RSSET_SIZE) || (dtype =? 0)) = true ->
+   existsb (rmatch (s32 (le32 p REQ_OFF_CHANNEL))) (rss s) = true -> res = RES_UNAUTHORIZED).
+Proof.
+  intros s p L Hup Hreg Hg Hu Hc Ha. rewrite (step_srv _ _ _ L), (srv_is_calcfg _ _ Hup Hreg), Hg, Hu.
+  unfold calcfg. rewrite Hc, Ha. pose proof (cf_cmds CF) as Hne.
+  assert (E1 : (CMD_RECALIBRATE =? CMD_ENTER_CFG_MODE) = false) by (apply Z.eqb_neq; congruence). rewrite E1, Z.eqb_refl.
+  set (sender := s32 (le32 p REQ_OFF_SENDER)). set (ch := s32 (le32 p REQ_OFF_CHANNEL)).
+  set (dt := s32 (le32 p REQ_OFF_DATATYPE)). set (wf := (dt =? DATATYPE_RS_SETTINGS) && (le32 p REQ_OFF_DATASIZE =? RSSET_SIZE)).
+  cbn [andb]. destruct (wf || (dt =? 0)) eqn:W.
+  - destruct (recal_loop_unauth (rss s) ch wf (le32 p (REQ_OFF_DATA + RSSET_OFF_OPEN)) (le32 p (REQ_OFF_DATA + RSSET_OFF_CLOSE))) as [m E].
+    rewrite E. cbv zeta. rewrite with_rss_id, cal_outs_same. cbn [Z.ltb Z.compare app]. rewrite app_nil_r.
+    destruct (filter_send_result s sender ch CMD_RECALIBRATE (recal_result (rss s) ch 0 RES_NOT_SUPPORTED)) as [F1 F2].
+    rewrite F1, F2, inert_refl, app_nil_r. eexists; split; [reflexivity|]. split.
+    + destruct (existsb (rmatch ch) (rss s)) eqn:X; [left; apply recal_result_match; auto|right; apply recal_result_nomatch; auto].
+    + intros _ X. apply recal_result_match; auto.
+  - destruct (filter_send_result s sender ch CMD_RECALIBRATE RES_NOT_SUPPORTED) as [F1 F2].
+    cbv zeta. rewrite F1, F2, inert_refl, app_nil_r. eexists; split; [reflexivity|]. split; [right; reflexivity|].
+    intros X. cbv zeta in X. fold dt in X. fold wf in X. congruence.
+Qed.
+
+End WithFacts.
